@@ -370,7 +370,12 @@ func readProperty(st *vStats) func(t *rapid.T) {
 		defer o.w.close()
 		st.eval()
 		e2TraceHash(st, o.w)
-		if sig, msg := judgeRead(s, o); sig != "" {
+		if sig, msg := judgeRead(s, o); sig != "" && e2Confirmed(st, o.w, func(d []vs.Step) string {
+			o2 := runRead(nil, s, d)
+			defer o2.w.close()
+			s2, _ := judgeRead(s, o2)
+			return s2
+		}) {
 			rep := e2Replay{Scenario: s, Strategy: o.w.strategy, Decisions: o.w.trace(), Events: o.w.names(), TraceTail: o.w.describeTrace(40)}
 			vReport(vViolation{Property: "C07", Slot: "rapid:C07", Signature: sig, Message: msg, Replay: rep})
 			t.Fatalf("C07 violated [%s]: %s\nscenario: %+v\nlast steps:\n%s", sig, msg, s, o.w.describeTrace(30))
@@ -492,6 +497,15 @@ func genFlushScn(t *rapid.T, prop string) flushScn {
 	s.UserClose = rapid.IntRange(0, 6).Draw(t, "userclose") == 0
 	s.Second = rapid.IntRange(0, 4).Draw(t, "second") == 0
 	s.Fires = rapid.SampledFrom([]int{0, 0, 1, 2}).Draw(t, "fires")
+	if s.Second {
+		// A concurrent flusher that goes on after the first flusher's ErrWriteTimeout is outside the guarantee
+		// (the poller may still be draining; netpoll itself says "we cannot flush it again"): both flushers would
+		// work on the output buffer at once. The combination is not generated.
+		s.Fires = 0
+		for i := range s.Calls {
+			s.Calls[i].Timeout = "none"
+		}
+	}
 	return s
 }
 
@@ -870,7 +884,12 @@ func flushProperty(prop string, st *vStats) func(t *rapid.T) {
 		defer o.w.close()
 		st.eval()
 		e2TraceHash(st, o.w)
-		if sig, msg := judgeFlush(s, o); sig != "" {
+		if sig, msg := judgeFlush(s, o); sig != "" && e2Confirmed(st, o.w, func(d []vs.Step) string {
+			o2 := runFlush(nil, s, d)
+			defer o2.w.close()
+			s2, _ := judgeFlush(s, o2)
+			return s2
+		}) {
 			rep := e2Replay{Scenario: s, Strategy: o.w.strategy, Decisions: o.w.trace(), TraceTail: o.w.describeTrace(40)}
 			vReport(vViolation{Property: prop, Slot: "rapid:" + prop, Signature: sig, Message: msg, Replay: rep})
 			t.Fatalf("%s violated [%s]: %s\nscenario: %+v\nlast steps:\n%s", prop, sig, msg, s, o.w.describeTrace(30))
@@ -989,7 +1008,12 @@ func TestVerifC04(t *testing.T) {
 			defer o.w.close()
 			st.eval()
 			e2TraceHash(st, o.w)
-			if sig, msg := judgeFlush(s, o); sig != "" {
+			if sig, msg := judgeFlush(s, o); sig != "" && e2Confirmed(st, o.w, func(d []vs.Step) string {
+				o2 := runFlush(nil, s, d)
+				defer o2.w.close()
+				s2, _ := judgeFlush(s, o2)
+				return s2
+			}) {
 				vReport(vViolation{Property: "C04", Slot: "rapid:C04", Signature: sig, Message: msg, Replay: e2Replay{Scenario: s, Strategy: o.w.strategy, Decisions: o.w.trace(), TraceTail: o.w.describeTrace(40)}})
 				t.Fatalf("C04 violated [%s]: %s\nscenario: %+v", sig, msg, s)
 			}
@@ -1037,7 +1061,12 @@ func TestVerifC04(t *testing.T) {
 		defer o.w.close()
 		st.eval()
 		e2TraceHash(st, o.w)
-		if sig, msg := judgeRead(s, o); sig != "" {
+		if sig, msg := judgeRead(s, o); sig != "" && e2Confirmed(st, o.w, func(d []vs.Step) string {
+			o2 := runRead(nil, s, d)
+			defer o2.w.close()
+			s2, _ := judgeRead(s, o2)
+			return s2
+		}) {
 			vReport(vViolation{Property: "C04", Slot: "rapid:C04", Signature: sig, Message: msg, Replay: e2Replay{Scenario: s, Strategy: o.w.strategy, Decisions: o.w.trace(), Events: o.w.names(), TraceTail: o.w.describeTrace(40)}})
 			t.Fatalf("C04 violated [%s]: %s\nscenario: %+v", sig, msg, s)
 		}
